@@ -41,7 +41,7 @@ def expected_bytes(audio):
 class Execution(object):
     """One run of a control program under a scheduling strategy."""
 
-    def __init__(self, h, program, audios, wait, choose, max_steps=3000):
+    def __init__(self, h, program, audios, wait, choose, max_steps=3000, fine=False):
         self.h = h
         self.program = program
         self.audios = audios
@@ -53,7 +53,8 @@ class Execution(object):
         self.alive_at_close = None
         self.post_play_raised = None
         self.main_exc = None
-        self.sched, self.backend = h.new_run(choose, max_steps=max_steps, on_step=self._on_step)
+        self.sched, self.backend = h.new_run(choose, max_steps=max_steps * (12 if fine else 1),
+                                             on_step=self._on_step, fine=fine)
         self.result = None
 
     # -- naming of shim objects ---------------------------------------------------------------------
@@ -106,6 +107,8 @@ class Execution(object):
 
     def _on_step(self, s, ts, op):
         kind, obj = op
+        if kind == "line":
+            return
         if kind == "start" and obj not in self.players:
             self.players.append(obj)
         if ts.tid == 0 and kind in ("begin", "end"):
@@ -257,12 +260,16 @@ def random_program(rng, np_, maxctl, wait):
 # M1: the design
 # ==================================================================================================
 def m1(ctx):
-    for cfg in ("AudioIO_fixed_nowait.cfg", "AudioIO_fixed_wait.cfg"):
+    main_cfgs = ("AudioIO_fixed_nowait.cfg", "AudioIO_fixed_wait.cfg") if ctx.thorough else \
+        ("AudioIO_q_nowait.cfg", "AudioIO_q_wait.cfg")
+    sens_cfgs = (("AudioIO_sens_stop.cfg", ("temporal",)), ("AudioIO_sens_join.cfg", ("NoThreadAlive",))) \
+        if ctx.thorough else (("AudioIO_qsens_stop.cfg", ("temporal",)), ("AudioIO_qsens_join.cfg", ("NoThreadAlive",)))
+    for cfg in main_cfgs:
         r = tlc.run("AudioIO", cfg, coverage=True)
         tlc.require_ok(r, "AudioIO " + cfg, need_actions=("p1w", "p3", "p5", "p5h", "c7", "c8j", "st3", "pa2", "re2"))
         ctx.add_tlc(r, "AudioIO %s: all interleavings, safety + CloseReturns under weak fairness" % cfg)
     # sensitivity: the two defects of the pinned commit must be visible to the model
-    for cfg, want in (("AudioIO_sens_stop.cfg", ("temporal",)), ("AudioIO_sens_join.cfg", ("NoThreadAlive",))):
+    for cfg, want in sens_cfgs:
         r = tlc.run("AudioIO", cfg, coverage=False)
         if r.violated not in want:
             raise tlc.MachineryError("sensitivity run %s: expected violation %s, got rc=%s violated=%s" %
@@ -485,6 +492,7 @@ def check(ctx):
                        "synchronisation/backend operations"]
     nrand = 300 if not ctx.thorough else 4000
     m3(ctx, h, nrand)
+    m3_fine(ctx, h, 30 if not ctx.thorough else 600)
 
 
 CONFIGS = [(3,), (2, 1), (0, 2), (2, 2), (1, 2, 1), (3, 0, 2)]
@@ -495,10 +503,11 @@ def m3(ctx, h, count):
     batches = {}
     seen = set()
     nviol = 0
+    configs = CONFIGS if ctx.thorough else [(3,), (2, 1), (1, 2, 1)]
     for k in range(count):
-        nch = list(CONFIGS[k % len(CONFIGS)])
+        nch = list(configs[k % len(configs)])
         np_ = len(nch)
-        wait = (k // len(CONFIGS)) % 2 == 0
+        wait = (k // len(configs)) % 2 == 0
         audios = [audio_for(i + 1, nch[i], rng.random() < 0.5) for i in range(np_)]
         prog = random_program(rng, np_, 5, wait)
         if k % 2:
@@ -526,7 +535,34 @@ def m3(ctx, h, count):
     validate(ctx, batches)
 
 
-def validate(ctx, batches):
+def m3_fine(ctx, h, count):
+    """Line-level pre-emption: every source line of lazy_io is a scheduling point."""
+    rng = ctx.rng
+    batches = {}
+    nviol = 0
+    configs = [(2,), (1, 1), (2, 1)]
+    for k in range(count):
+        nch = list(configs[k % len(configs)])
+        np_ = len(nch)
+        wait = (k // len(configs)) % 2 == 0
+        audios = [audio_for(i + 1, nch[i], rng.random() < 0.5) for i in range(np_)]
+        prog = random_program(rng, np_, 4, wait)
+        choose = random_choice(rng) if k % 2 else pct_choice(rng, np_ + 1, rng.randint(1, 4), 400)
+        ex = Execution(h, prog, audios, wait, choose, fine=True)
+        ex.run()
+        ctx.count(1, nontrivial_key=("fine", k))
+        for clause, detail in ex.monitors():
+            nviol += 1
+            ctx.violation("C17:fine:" + clause, {"program": prog, "wait": wait, "chunks": nch, "detail": detail,
+                                                 "result": ex.result, "steps": ex.sched.steps,
+                                                 "schedule": ["%d:%s" % (e["proc"], e["op"]) for e in ex.events]})
+        batches.setdefault((np_, tuple(nch), wait), []).append({"events": ex.events, "program": prog,
+                                                                "result": ex.result})
+    ctx.log("fine-grained: %d executions with line-level pre-emption, %d monitor alarms" % (count, nviol))
+    validate(ctx, batches, fine=True)
+
+
+def validate(ctx, batches, fine=False):
     """TLC judges the recorded executions against AudioIO (fixed variant = the intended behaviour)."""
     for bi, ((np_, nch, wait), runs) in enumerate(sorted(batches.items())):
         d = tlc.scratch_dir("c17t")
@@ -537,9 +573,12 @@ def validate(ctx, batches):
         consts = {"NP": np_, "NChunks": "<- BChunks", "MaxCtl": 50, "Wait": "TRUE" if wait else "FALSE",
                   "StopWakes": "TRUE", "JoinAll": "TRUE"}
         traces = [{"events": r["events"]} for r in runs]
-        acc, rej = tracecheck.run_traces(ctx, root, consts, traces, invariants=("Accepted",) + SAFETY,
-                                         what="C17 recorded executions np=%d chunks=%s wait=%s" % (np_, nch, wait),
-                                         pick="max")
+        acc, rej = tracecheck.run_traces(ctx, root, consts, traces,
+                                         next_="TNextF" if fine else "TNext",
+                                         invariants=(("AcceptedF",) if fine else ("Accepted",)) + SAFETY,
+                                         what="C17 recorded %sexecutions np=%d chunks=%s wait=%s" %
+                                         ("fine-grained " if fine else "", np_, nch, wait),
+                                         pick="max", timeout=3000)
         ctx.traces += len(acc)
         for tid, info in sorted(rej.items()):
             r = runs[tid - 1]
